@@ -3,7 +3,7 @@ import random
 from harness.components.purecomp import tlc_cases, DRIVER, COMP, known_match
 from harness import core
 
-STRS = ['int', 'int2', 'float', 'qstr', 'tuple', 'list', 'dict', 'none', 'true', 'neg', 'padded', 'trail',
+STRS = ['int', 'int2', 'float', 'qstr', 'qlit', 'tuple', 'list', 'dict', 'none', 'true', 'neg', 'padded', 'trail',
         'bare', 'call', 'attr', 'op', 'litcall', 'litsub', 'empty', 'unhash', 'withsep']
 OBJS = ['obj_int', 'obj_tuple', 'obj_none']
 
@@ -46,12 +46,26 @@ def run(ctx):
         extra.append({'kind': 'parse', 'items': items, 'shape': shape, 'pk': rng.random() < 0.6,
                       'parser': rng.choice(['default', 'default', 'raising']), 'sep': rng.choice(['=', '=', '=>', '::', ':=']),
                       'pairform': rng.choice(['lists', 'tuples'])})
-    for fam, part in (('tlc_enumerated', scs), ('random_longer', extra)):
+    # key collisions: several items whose keys are equal after parsing (1, True, ' 1', '1 ' / None) or textually, in every
+    # order, with distinct values: the later item wins, pair by pair in item order
+    coll = []
+    classes = [['int', 'true', 'padded', 'trail'], ['none'], ['int2'], ['qstr', 'bare']]
+    vals = ['int2', 'float', 'qstr', 'tuple', 'bare', 'neg', 'list']
+    for _ in range(800 if ctx.tier == 'quick' else 20000):
+        cls = rng.choice(classes[:1] * 3 + classes)
+        k = rng.randint(2, 4)
+        other = rng.choice(['float', 'neg', 'bare'])
+        keys = [rng.choice(cls) if rng.random() < 0.8 else other for _ in range(k)]
+        vs = rng.sample(vals, k)
+        shape = rng.choice(['pairs', 'strings', 'strings'])
+        coll.append({'kind': 'parse', 'items': [[a, b] for a, b in zip(keys, vs)], 'shape': shape, 'pk': rng.random() < 0.8,
+                     'parser': 'default', 'sep': rng.choice(['=', '=', '::']), 'pairform': rng.choice(['lists', 'tuples'])})
+    for fam, part in (('tlc_enumerated', scs), ('random_longer', extra), ('key_collisions', coll)):
         for off in range(0, len(part), 8000):
             ctx.run_and_validate(DRIVER, COMP, 'ParseTrace', part[off:off + 8000], fam,
                                  nontrivial=lambda sc, r: len(sc['items']) >= 1, known_match=known_match)
     return ctx.finish(
-        rule='TLC enumerates from ParseGen.tla every item list of length 0..1 over 21 string fragment classes (12 literal, 9 '
+        rule='TLC enumerates from ParseGen.tla every item list of length 0..1 over 22 string fragment classes (13 literal, 9 '
              'non-literal incl. calls / attribute access / operators / text containing the separator / whitespace / empty / '
              'unhashable display) and 3 non-string objects, as mapping / pairs / joined strings / string without separator, '
              'parse_keys on/off, default and raising parser, separators of length 1..2; item lists of length 2..4 are random; '
